@@ -94,6 +94,11 @@ def record_codec():
                     for k in ('1', '2'):
                         ok, out = safe(ex.export_pitch, p)
                         r.update({'out' + k: txt(ok, out), 'name' + k: str(p.name), 'oct' + k: int(p.octave)})
+                    try:                     # the imported pitch belongs to the caller: it is moved elsewhere after the record was taken
+                        p.octave = int(p.octave) + 1
+                        p.name = 'D-'
+                    except Exception:  # noqa
+                        pass
                 except Exception as e:  # noqa
                     r.setdefault('name0', 'EXC:' + type(e).__name__)
                     r.setdefault('oct0', 0)
@@ -123,7 +128,17 @@ def record_agnostic():
 
                         def conv():
                             clef = ClefFactory.create_clef(clef_txt)
-                            return pitch_to_gkern_string(HumdrumPitchImporter().import_pitch(s), clef)
+                            p = HumdrumPitchImporter().import_pitch(s)
+                            out = pitch_to_gkern_string(p, clef)
+                            # what the API handed out belongs to the caller: the clef's reference pitches and the imported pitch are moved
+                            # elsewhere after use (later conversions must not notice)
+                            for q in (clef.bottom_line(), clef.reference_point().base_pitch, p):
+                                try:
+                                    q.octave = int(q.octave) + 2
+                                    q.name = 'A+'
+                                except Exception:  # noqa
+                                    pass
+                            return out
                         ok, out = safe(conv)
                         recs.append({'op': 'agn', 'k': k, 'mark': cps(mark), 'clef': cps(clef_txt), 'l': l, 'a': a, 'o': o,
                                      'inp': cps(s), 'ok': ok, 'out': txt(ok, out), 'exc': '' if ok else out})
